@@ -9,7 +9,7 @@ Lemma liveness_keeps k pl r : r_im (liveness k pl r) = r_im r /\ r_nd (liveness 
 Proof. unfold liveness, live_registration, live_site, err_of_wr. repeat bm; simpl; split; reflexivity. Qed.
 
 Lemma registration_keeps_i k pl r : c_i (r_im (registration k pl r)) = c_i (r_im r).
-Proof. unfold registration, registered_now, pool_reg, hook_return, err_of_wr. repeat bm; simpl; congruence. Qed.
+Proof. unfold registration, pool_then_registered, registered_now, hook_return, err_of_wr. repeat bm; simpl; congruence. Qed.
 
 Lemma initialization_keeps_r k pl r : c_r (r_im (initialization k pl r)) = c_r (r_im r).
 Proof. unfold initialization, set_i, err_of_wr. repeat bm; simpl; congruence. Qed.
